@@ -316,3 +316,30 @@ package main
 //@   calls router.canDelete#1: set allowed = $r
 //@   calls RRVolumeManager.AllWritable#1: set writable = true
 //@   calls Volume.Trash#1: requires allowed && old(rtr.cluster.Collections.BlobTrash) && writable && $0 == hash
+
+// handleTOUCH: the request is acknowledged (no error response) only if some
+// writable volume's Touch of the requested hash returned nil; only a system
+// token gets that far.
+//@ func router.handleTOUCH property C04 safety -bounds
+//@   ghost sys bool = false
+//@   ghost touched bool = false
+//@   ghost errd bool = false
+//@   ghost writable bool = false
+//@   calls router.isSystemAuth#1: set sys = $r
+//@   calls RRVolumeManager.AllWritable#1: set writable = true
+//@   calls Volume.Touch#1: requires sys && writable && $0 == hash
+//@   calls Volume.Touch#1: set touched = touched || $r == nil
+//@   calls http.Error#*: set errd = true
+//@   loop 1: invariant ($i > 0 && err == nil ==> touched) && len(vols) > 0 && $n == len(vols)
+//@   ensures !errd ==> touched
+
+// handleUntrash: Untrash is requested only with a system token, only for the
+// requested hash and only on writable volumes.
+//@ iface Volume.Untrash
+//@   modifies nothing
+//@ func router.handleUntrash property C04 safety -bounds
+//@   ghost sys bool = false
+//@   ghost writable bool = false
+//@   calls router.isSystemAuth#1: set sys = $r
+//@   calls RRVolumeManager.AllWritable#2: set writable = true
+//@   calls Volume.Untrash#1: requires sys && writable && $0 == hash
